@@ -65,7 +65,7 @@ class TCPTransport(KNXIPTransport):
             logger.debug("Closing TCP transport. %s", exc)
             self.connection_lost_callback()
 
-    __slots__ = ("_buffer", "_connection_lost_cb", "remote_hpai")
+    __slots__ = ("_buffer", "_connection_lost_cb", "_stop_requested", "remote_hpai")
 
     def __init__(
         self,
@@ -80,6 +80,8 @@ class TCPTransport(KNXIPTransport):
         self._connection_lost_cb = connection_lost_cb
         self.transport: asyncio.Transport | None = None
         self._buffer = b""
+        # stop() was called while connect() was still opening the connection
+        self._stop_requested = False
 
     def data_received_callback(self, raw: bytes) -> None:
         """Parse and process KNXIP frame. Callback for having received data over TCP."""
@@ -139,11 +141,17 @@ class TCPTransport(KNXIPTransport):
             connection_lost_callback=self._connection_lost,
         )
         loop = asyncio.get_running_loop()
-        (self.transport, _) = await loop.create_connection(
+        self._stop_requested = False
+        (transport, _) = await loop.create_connection(
             lambda: tcp_transport_factory,
             host=self.remote_hpai.ip_addr,
             port=self.remote_hpai.port,
         )
+        if self._stop_requested:
+            # stopped (e.g. disconnect() of the owner) while the connection was being opened
+            transport.close()
+            raise CommunicationError("Transport was stopped while connecting")
+        self.transport = transport
 
     def _connection_lost(self) -> None:
         """Call assigned callback. Callback for connection lost."""
@@ -152,6 +160,11 @@ class TCPTransport(KNXIPTransport):
             self.stop()
             if self._connection_lost_cb:
                 self._connection_lost_cb()
+
+    def stop(self) -> None:
+        """Stop socket - also one that `connect()` is still opening."""
+        self._stop_requested = True
+        super().stop()
 
     def send(self, knxipframe: KNXIPFrame, addr: tuple[str, int] | None = None) -> None:
         """Send KNXIPFrame to socket. `addr` is ignored on TCP."""
